@@ -121,21 +121,22 @@ def applyDelete (c : Nat) (v1 v2 : Val) (rs : RowSet) : RowSet :=
     if sqlEqB (Row.at r c) v1 || sqlEqB (Row.at r c) v2 then some i else none
   { rs with dead := rs.dead ++ hit.filter (fun i => !rs.dead.contains i) }
 
-/-- replay of the write history: row-sets by id -/
-def replayOps (primary : List Nat) : List Sexp → List RowSet → List RowSet
+/-- replay of the write history: live row-sets (sorted by id) and the next row-set id -/
+def replayOps (primary : List Nat) : List Sexp → List RowSet × Nat → List RowSet × Nat
   | [], acc => acc
-  | op :: rest, acc =>
+  | op :: rest, (acc, nextId) =>
     match op with
     | .list (.atom "ins" :: rows) =>
       let rs := rows.filterMap fun r => match r with
         | .list vs => valsOf vs
         | _ => none
-      replayOps primary rest (acc ++ [{ id := acc.length, rows := memtableFlush primary rs, dead := [], blocks := [] }])
+      replayOps primary rest (acc ++ [{ id := nextId, rows := memtableFlush primary rs, dead := [], blocks := [] }], nextId + 1)
     | .list [.atom "del", .atom c, .atom v1, .atom v2] =>
       match c.toNat?, Val.ofCanon v1, Val.ofCanon v2 with
-      | some c', some a, some b => replayOps primary rest (acc.map (applyDelete c' a b))
-      | _, _, _ => replayOps primary rest acc
-    | _ => replayOps primary rest acc
+      | some c', some a, some b => replayOps primary rest (acc.map (applyDelete c' a b), nextId)
+      | _, _, _ => replayOps primary rest (acc, nextId)
+    | .list [.atom "compact"] => replayOps primary rest (compactAll primary nextId acc)
+    | _ => replayOps primary rest (acc, nextId)
 
 def field (name : String) (xs : List Sexp) : Option (List Sexp) :=
   xs.findSome? fun x => match x with
@@ -278,7 +279,7 @@ def answer (line : String) : String :=
         | some xs => natsOf xs
         | none => []
       let t : TableMeta := { primary := primary, sortedByPk := true }
-      let all := (replayOps primary ops []).map (attachBlocks ((field "blocks" rest).getD []))
+      let all := (replayOps primary ops ([], 0)).1.map (attachBlocks ((field "blocks" rest).getD []))
       let lay := (natsOf snap).filterMap fun i => all.find? (·.id == i)
       let scans := (field "scans" rest).getD []
       "(case " ++ id ++ " " ++ showLayout lay ++ " " ++ " ".intercalate (qs.map (answerQuery t lay)) ++
